@@ -151,6 +151,8 @@ def run(facts, res):
                     continue
                 n4 += 1
                 for rd in reads:
+                    if callee_name(rd) == R.name("recon") and len(rd[2]) < 4:
+                        continue
                     rev = rd[2][3] if callee_name(rd) == R.name("recon") else rd[2][1]
                     rvars = {v[1] for v in walk(rev) if v[0] == "var"}
                     guard = False
